@@ -34,7 +34,7 @@ def own_block(d):
     sts = type_stmts(d)
     return sts[0] if sts and tag(sts[0]) == 'vftable' else None
 
-def mutate_derived(rng, c):
+def mutate_derived(rng, c, kinds=('name', 'recv', 'arg', 'ret', 'cc', 'trunc', 'arity')):
     """pick a derived type whose own block repeats inherited slots and damage one inherited slot"""
     defs = {}
     for (mp, file, m) in modules_of(c):
@@ -60,7 +60,7 @@ def mutate_derived(rng, c):
     block = d[3][2]
     k = rng.randrange(ninh)
     f = list(block[2 + k])
-    kind = rng.choice(['name', 'recv', 'arg', 'ret', 'cc', 'trunc'])
+    kind = rng.choice(list(kinds))
     if kind == 'name':
         f[2] = f[2] + '_x'
     elif kind == 'recv':
@@ -79,13 +79,26 @@ def mutate_derived(rng, c):
         else:
             a.append(arg('extra', ty_id('u8')))
         f[4] = a
+    elif kind == 'arity':
+        a = list(f[4])
+        named = [i for i in range(1, len(a)) if not isinstance(a[i], Sym)]
+        if named and rng.random() < 0.5:
+            a = a[:named[-1]] + a[named[-1] + 1:]       # drop the last parameter
+        else:
+            a.append(arg('extra', ty_id('u32')))          # add a trailing parameter
+        f[4] = a
     elif kind == 'ret':
         r = opt(f[5])
         f[5] = mkopt(None) if r is not None else mkopt(ty_id('u16'))
     elif kind == 'cc':
         cur = attr_fn(f[3][1:], 'calling_convention')
-        new = 'fastcall' if cur != 'fastcall' else 'cdecl'
-        f[3] = attrs(*([a for a in f[3][1:] if not (tag(a) == 'af' and a[1] == 'calling_convention')] + [a_fn('calling_convention', e_str(new))]))
+        if cur is not None and cur != ('thiscall' if has_self(f) else 'system') and rng.random() < 0.5:
+            # the attribute forgotten on the repeated slot (falls back to the default convention)
+            f[3] = attrs(*[a for a in f[3][1:] if not (tag(a) == 'af' and a[1] == 'calling_convention')])
+        else:
+            dflt = 'thiscall' if has_self(f) else 'system'
+            new = rng.choice([x for x in ['fastcall', 'cdecl', 'stdcall', 'C'] if x != cur and not (cur is None and x == dflt)])
+            f[3] = attrs(*([a for a in f[3][1:] if not (tag(a) == 'af' and a[1] == 'calling_convention')] + [a_fn('calling_convention', e_str(new))]))
     if kind == 'trunc':
         newblock = block[:2 + k]
         newblock = [newblock[0], attrs(*[a for a in newblock[1][1:] if not (tag(a) == 'af' and a[1] == 'size')])] + newblock[2:]
